@@ -14,7 +14,7 @@ cleanup() { git -C /repo worktree remove --force "$WT" 2>/dev/null; rm -rf "$WT"
 trap cleanup EXIT
 cd "$WT" || exit 2
 PLACE=$(python3 -c "import json,sys,re;print(re.split(r'[\s(,;]', json.load(open('$SEED/meta.json')).get('demo_placement','').strip())[0])")
-DCMD=$(python3 -c "import json,sys;print(json.load(open('$SEED/meta.json')).get('demo_cmd',''))")
+DCMD=$(python3 -c "import json,sys,re;print(re.split(r'\s{2,}\(|;\s+optional', json.load(open('$SEED/meta.json')).get('demo_cmd',''))[0])")
 echo "seed: $SEED  placement: $PLACE"
 if [ "${SKIP_DEMO:-0}" != 1 ] && [ -n "$PLACE" ] && [ -f "$SEED/demo_test.go.txt" ]; then
   mkdir -p "$(dirname "$PLACE")"; cp "$SEED/demo_test.go.txt" "$PLACE"
@@ -28,7 +28,7 @@ if [ "${SKIP_DEMO:-0}" != 1 ] && [ -n "$PLACE" ] && [ -f "$PLACE" ]; then
   rm -f "$PLACE"
 fi
 if [ "${SKIP_SUITE:-0}" != 1 ]; then
-  go test -mod=mod -vet=off -count=1 ./... 2>&1 | grep -E "^(FAIL|---)" | grep -v "wire/net/libp2p" | grep -v "TestBus" | grep -v "^FAIL$" | grep -v "wire/net/simple" | head -5 > $WT.suite.log
+  go test -mod=mod -vet=off -count=1 $(go list ./... | grep -v wire/net/libp2p) 2>&1 | grep -E "^(FAIL|---)" | grep -v "wire/net/libp2p" | grep -v "TestBus" | grep -v "^FAIL$" | grep -v "wire/net/simple" | head -5 > $WT.suite.log
   if [ -s $WT.suite.log ]; then echo "existing suite with change: FAILS:"; cat $WT.suite.log; else echo "existing suite with change: passes (libp2p excluded)"; fi
 fi
 cd /verif && VERIF_REPO="$WT" ./check "$PID" "$TIER" > $WT.check.log 2>&1; RC=$?
